@@ -289,8 +289,8 @@ def gen_t(r, stats):
         # 60 min -> keep 30 min); saves at any moment: with pieces in flight, after stop before close, during hashing
         missing = sorted(r.sample(range(np_), r.randint(2, min(4, np_))))
         first = sorted(r.sample(missing, r.randint(1, len(missing) - 1)))
-        gap = r.choice([10, 31, 59, 61, 61, 75, 120])
-        tail = r.choice([0, 0, 5, 14, 16])
+        gap = r.choice([9, 31, 58, 62, 62, 75, 120])        # never exactly on a window boundary (virtual time also moves a little while peers are served)
+        tail = r.choice([0, 0, 4, 13, 17])
         ops = ["start", r.choice(["dl=", "dlhold="]) + ",".join(map(str, first))]
         if ops[1].startswith("dlhold") or r.random() < 0.3:
             ops.append("save")
